@@ -399,3 +399,11 @@ fn highest_bit_set(x: u32) -> u32 {
     assert!(x > 0);
     u32::BITS - x.leading_zeros()
 }
+
+#[cfg(feature = "verif_hooks")]
+impl HuffmanTable {
+    /// (symbol, num_bits) of every entry of the decoding table, for the verification harness.
+    pub fn verif_entries(&self) -> Vec<(u8, u8)> {
+        self.decode.iter().map(|e| (e.symbol, e.num_bits)).collect()
+    }
+}
